@@ -20,7 +20,15 @@ type zzListener struct {
 }
 
 func (l *zzListener) Accept() (net.Conn, error) { return nil, errZZ }
-func (l *zzListener) Close() error              { l.closed++; return nil }
+func (l *zzListener) Close() error {
+	l.closed++
+	// a port goes back to the pool only after the socket bound to it is closed: otherwise another
+	// proxy is given a port the OS still refuses
+	if zzNet.tcpPM != nil && l.closed == 1 && zzNet.tcpPM.ZZIsFree(l.port) {
+		zzverif.Fail("C09.close.port-returned-to-the-pool-only-after-its-socket-is-closed")
+	}
+	return nil
+}
 func (l *zzListener) Addr() net.Addr            { return zzAddr{l.addr} }
 
 var zzNet struct {
@@ -28,11 +36,14 @@ var zzNet struct {
 	failNext  bool
 	udpOpen   map[*net.UDPConn]int // port
 	udpClosed map[*net.UDPConn]int
+	tcpPM     *ports.Manager // when set: the manager the tcp listeners' ports come from
+	udpPM     *ports.Manager
 }
 
 func zzNetReset() {
 	zzNet.listeners, zzNet.failNext = nil, false
 	zzNet.udpOpen, zzNet.udpClosed = map[*net.UDPConn]int{}, map[*net.UDPConn]int{}
+	zzNet.tcpPM, zzNet.udpPM = nil, nil
 }
 
 // stub for net.Listen
@@ -67,7 +78,13 @@ func zzStubListenUDP(network string, laddr *net.UDPAddr) (*net.UDPConn, error) {
 }
 
 // stub for (*net.UDPConn).Close
-func zzStubUDPClose(c *net.UDPConn) error { zzNet.udpClosed[c]++; return nil }
+func zzStubUDPClose(c *net.UDPConn) error {
+	zzNet.udpClosed[c]++
+	if p, ok := zzNet.udpOpen[c]; ok && zzNet.udpPM != nil && zzNet.udpClosed[c] == 1 && zzNet.udpPM.ZZIsFree(p) {
+		zzverif.Fail("C09.close.port-returned-to-the-pool-only-after-its-socket-is-closed")
+	}
+	return nil
+}
 
 // stub for (*ports.Manager).isPortAvailable: the OS agrees unless told otherwise
 var zzProbeAnswer = true
@@ -89,6 +106,8 @@ func zzPortService() (*Service, *ports.Manager, *ports.Manager) {
 func VerifC10RegisterPort() {
 	svr, tcp, udp := zzPortService()
 	zzNetReset()
+	zzNet.tcpPM, zzNet.udpPM = tcp, udp
+	defer func() { zzNet.tcpPM, zzNet.udpPM = nil, nil }()
 	zzProbeAnswer = true
 	svr.cfg.MaxPortsPerClient = int64(zzverif.Choice("maxPortsPerClient", 3))
 	other, _ := zzControl(svr, "r0", 0)
